@@ -632,7 +632,8 @@ func runOp(op opIn) (term string, obs map[string]any, class string) {
 
 	case "out":
 		f := mkFrame(op.Frame)
-		id := op.ID.s()
+		// a reply token is the id of a decoded JSON document, hence valid UTF-8
+		id := strings.ToValidUTF8(op.ID.s(), "\uFFFD")
 		m, err := jsonrpc.FromFrame(id, f)
 		msg, wireSame, dec := vh.None(), true, vh.App("OErr", "0")
 		class = fmt.Sprintf("out:%s,ok=%v", op.Frame.T, err == nil)
